@@ -362,7 +362,9 @@ func canonLits(s string) string {
 	return out.String()
 }
 
-func canonLitsInner(s string) string { return strings.TrimSuffix(strings.TrimPrefix(canonLits("("+s+")"), "("), ")") }
+func canonLitsInner(s string) string {
+	return strings.TrimSuffix(strings.TrimPrefix(canonLits("("+s+")"), "("), ")")
+}
 
 // canonical printed form: Executable.String() writes the operations in map order
 func canonPrint(s string) string {
@@ -670,7 +672,97 @@ func cmdEnvelope(args []string) {
 			}
 		}
 	}
+	contentCases(enc, rep)
 	rep.Emit()
+}
+
+// ---- string content (C07): every response must serialise to valid JSON "for every string content".
+// The strings of U-exec are plain words, so a second small root (reflection strategy) echoes request
+// supplied strings into data values and into error messages.
+
+type strQuery struct{}
+
+func (q *strQuery) Echo(s string) string { return "s=" + s }
+func (q *strQuery) Fail(s string) (interface{}, error) {
+	return nil, fmt.Errorf("failed on %s", s)
+}
+func (q *strQuery) Many(s string) (interface{}, error) {
+	return nil, ggql.Errors{fmt.Errorf("first %s", s), &ggql.Error{Base: fmt.Errorf("second %s", s), Extensions: map[string]interface{}{s: s}}}
+}
+
+type strSchema struct{ Query *strQuery }
+
+// the characters response strings are built from: plain, every character with a short JSON escape, control
+// characters without one, DEL, multi-byte runes, the line separators JSON allows raw, a byte that is not UTF-8
+var contentChars = []string{"a", "\"", "\\", "/", "\n", "\t", "\r", "\b", "\f", "\x00", "\x01", "\x1b", "\x1f", "\x7f", "\u00e9", "\u2028", "\U0001F600", "\xff", " "}
+
+func gqlStringLiteral(s string) (string, bool) {
+	var b strings.Builder
+	b.WriteByte('"')
+	for _, r := range s {
+		switch {
+		case r == '"':
+			b.WriteString(`\"`)
+		case r == '\\':
+			b.WriteString(`\\`)
+		case r == 0xFFFD:
+			return "", false // (an invalid byte cannot be written as a literal)
+		case r < 0x20 || r == 0x7f:
+			fmt.Fprintf(&b, `\u%04x`, r)
+		default:
+			b.WriteRune(r)
+		}
+	}
+	b.WriteByte('"')
+	return b.String(), true
+}
+
+func contentCases(enc *json.Encoder, rep *vh.Report) {
+	root := ggql.NewRoot(&strSchema{Query: &strQuery{}})
+	if err := root.ParseString("type Query { echo(s: String): String fail(s: String): String many(s: String): String }"); err != nil {
+		vh.Die("content root: %s", err)
+	}
+	var strs []string
+	for _, a := range contentChars {
+		strs = append(strs, a)
+		for _, b := range contentChars {
+			strs = append(strs, a+b)
+		}
+	}
+	rng := rand.New(rand.NewSource(vh.Seed()))
+	for k := 0; k < 200; k++ {
+		n := 3 + rng.Intn(4)
+		var sb strings.Builder
+		for j := 0; j < n; j++ {
+			sb.WriteString(contentChars[rng.Intn(len(contentChars))])
+		}
+		strs = append(strs, sb.String())
+	}
+	for _, s := range strs {
+		type rq struct {
+			text string
+			vars map[string]interface{}
+		}
+		reqs := []rq{
+			{"query($v: String) { echo(s: $v) }", map[string]interface{}{"v": s}},
+			{"query($v: String) { x: fail(s: $v) echo(s: $v) }", map[string]interface{}{"v": s}},
+			{"query($v: String) { many(s: $v) }", map[string]interface{}{"v": s}},
+		}
+		if lit, ok := gqlStringLiteral(s); ok && !strings.ContainsAny(s, "\n\r") {
+			reqs = append(reqs, rq{"{ echo(s: " + lit + ") y: fail(s: " + lit + ") }", nil})
+		}
+		for _, q := range reqs {
+			res := root.ResolveString(q.text, "", q.vars)
+			sk := skeleton(res)
+			sk["lex"] = lexemes(q.text)
+			sk["rejected"] = false
+			sk["text"] = fmt.Sprintf("%s with v = %q", q.text, s)
+			sk["layout"] = 0
+			_ = enc.Encode(sk)
+			rep.Case("content|"+q.text+"|"+s, true)
+			rep.Class("content")
+		}
+	}
 }
 
 func pathsOnly(errs []gq.ErrRec) []map[string]interface{} {
